@@ -200,7 +200,8 @@ pub fn eval(c: &Case, obs: &mut Obs) -> Result<(), String> {
 }
 
 fn eval_inner(c: &Case, obs: &mut Obs) -> Result<(), String> {
-    let mut b = m::Builder::new();
+    // both ways of obtaining an empty builder (chosen by the case content)
+    let mut b = if c.calls.iter().map(|x| x.key as u64 + x.n as u64).sum::<u64>() % 2 == 1 { m::Builder::default() } else { m::Builder::new() };
     // model: slot -> images
     let mut single: Vec<Option<Vec<u8>>> = vec![None; SLOTS];
     let mut rep: Vec<Vec<Vec<u8>>> = vec![Vec::new(); SLOTS];
